@@ -616,7 +616,7 @@ func init() {
 	groupMasks = map[byte]int32 {
 		'u': unix.S_IRWXU | unix.S_ISUID,	// user r/w/x + set UID
 		'g': unix.S_IRWXG | unix.S_ISGID,	// group r/w/x + set GID
-		'o': unix.S_IRWXO,			// others r/w/x
+		'o': unix.S_IRWXO | unix.S_ISVTX,	// others r/w/x + sticky bit
 		'a': vdb.PermBits,			// all users
 	}
 
